@@ -70,6 +70,11 @@ Alloc == /\ Usable /\ Step /\ nextRef <= MaxNum
          /\ nextRef' = nextRef + 1 /\ lastErr' = ""
          /\ UNCHANGED <<mode, xref, deferred, pos, emitted, cur, written, trailer>>
 
+\* n calls of Alloc in a row (references allocated but possibly never written)
+AllocN(n) == /\ Usable /\ Step /\ nextRef + n <= MaxNum + 1
+             /\ nextRef' = nextRef + n /\ lastErr' = ""
+             /\ UNCHANGED <<mode, xref, deferred, pos, emitted, cur, written, trailer>>
+
 \* Put: written at once, or queued while a stream is open
 Put(n, g, v) ==
   /\ Usable /\ Step
@@ -179,7 +184,7 @@ CloseWhileOpen == /\ mode = "stream" /\ Step /\ lastErr' = "inStream"
 ProgNums == 1..MaxNum
 WC2(a, b, v) == a # b /\ WriteCompressed(<<a, b>>, <<v, v>>)
 WC1(a, v) == WriteCompressed(<<a>>, <<v>>)
-Next == \/ Alloc
+Next == \/ Alloc \/ AllocN(2)
         \/ \E n \in ProgNums, g \in {0, 1}, v \in Vals : Put(n, g, v)
         \/ \E n \in ProgNums, g \in {0, 1}, v \in Vals, lg \in {"none", "right", "wrong"} : OpenStream(n, g, v, lg)
         \/ OpenWhileOpen
